@@ -4,6 +4,6 @@ CONSTANTS
   Mode = "typed"
   MaxLines = 0
   MaxDepth = 2
-  Rich = TRUE
+  Rich = FALSE
   KeepUnmapped = TRUE
   CauseCounts = FALSE
